@@ -116,6 +116,33 @@ class Check:
             if new != old:
                 with open(path, "w") as f:
                     f.write(new)
+                # safety net: a unit whose translation does not compile as Lean (a construct the translator let through with a
+                # meaning Lean rejects) must not take the other units, the driver and every other check with it: such a unit
+                # is put back to its previous section, exactly like one that does not translate
+                rc, out = sh(["lake", "build", "DtailModel.Generated.Code"], cwd=LEAN, timeout=3000)
+                if rc != 0:
+                    bad_lines = [int(x) for x in re.findall(r"Generated/Code\.lean:(\d+):\d+", out)]
+                    spans = [(m.group(1), new.count("\n", 0, m.start()) + 1, new.count("\n", 0, m.end()) + 1)
+                             for m in re.finditer(r"namespace Dtail\.Gen\.(\w+)\n.*?end Dtail\.Gen\.\1\n", new, re.S)]
+                    bad_units = sorted({u for (u, a, b) in spans for l in bad_lines if a <= l <= b})
+                    repaired = new
+                    for unit in bad_units:
+                        pat = r"namespace Dtail\.Gen\." + unit + r"\n.*?end Dtail\.Gen\." + unit + r"\n\n"
+                        m = re.search(pat, old, re.S)
+                        if not m:
+                            continue
+                        repaired = re.sub(pat, lambda _: m.group(0), repaired, flags=re.S)
+                        msg = "the translation of unit %s does not compile: %s" % (unit, "; ".join(
+                            l.strip() for l in out.splitlines() if "Generated/Code.lean" in l and "error" in l)[:400])
+                        if unit in self.gen_units:
+                            self.failures.append(Failure("translation", f"the Go-to-Lean translation of package unit {unit} failed (the "
+                                                         "translated text is not accepted by Lean): " + msg, out[-3000:]))
+                        else:
+                            self.notes.append(f"translated unit {unit} does not compile (not used by this property): {msg[:200]}")
+                    if bad_units and repaired != new:
+                        new = repaired
+                        with open(path, "w") as f:
+                            f.write(new)
             self.coverage["functions_translated"] = len(re.findall(r"^def \S+ \(ext : Ext\)", new, re.M))
             return True
 
